@@ -30,6 +30,13 @@ CHECKS = {
             "values of every space must equal derivation from scratch along the harness's own C3. The n<=4 part is exhaustive; "
             "histories are a sample.",
             "trusts the harness C3 (cross-checked against Python's class MRO), accept-follows-real for which edits are accepted; allow_none propagation and member order not asserted"),
+    "C04": ("exploration",
+            "round-trip property testing (Hypothesis): describe(read(write(m))) == describe(m) for full-vocabulary models x {dir, zip} x write-read chains, plus zip/dir file parity and value batteries",
+            "Models over the full serialisable vocabulary (inheritance, parameter formulas, lambda/def cells, flags, docs with awkward "
+            "characters, literal/pickled/module/object references in all modes, inputs incl. ItemSpace inputs) are written and read "
+            "back in both container formats through chains of up to three generations; the public description and a query "
+            "battery must be preserved, writing must not change the model, and zip and directory must hold the same files.",
+            "public description of vf/describe.py; pickle files compared through the loaded models; allow_none of derived copies not compared"),
     "C05": ("fault_enumeration",
             "fault injection over generated dependency DAGs (Hypothesis): every reachable element in turn is the failure point, x exception kinds x prior holdings x repair, checked against holdings and execution logs predicted from reference call trees; depth probes for set_recursion and a subprocess survival run",
             "For each generated DAG model every element reachable from the top query is made to fail in turn (one harness fault "
